@@ -329,7 +329,7 @@ def _chk_ops(prop, case, im):
             stream = int(w[3])
         if w[0] == "enc" and w[2].startswith("encode"):
             last_ids = w[5:]
-            if prop in ("C07", "C08") and l.startswith("frames "):
+            if prop in ("C07", "C08", "C09") and l.startswith("frames "):
                 ops.append(("chkfr %s %s %s | %s" % (w[3], w[4], " ".join(w[5:]), " ".join(l.split(" ")[2:]))).replace("  ", " "))
                 n += 1
         if prop == "C01" and w[0] == "dec" and w[2] == "feedlast" and l.startswith("pk "):
@@ -428,3 +428,17 @@ def pred_c10(case, impl, model, ctx):
         if (int(b[12:16], 16) + k) % 65536 != int(a[12:16], 16):
             return False
     return True
+
+
+def batch_pred_c09(cases, impl, ctx):
+    """pred_c09 (ids, counters, version, reported counter - Python) and the Lean clause 'every frame announces the message type of its
+    messages' (driver, chkfr) on the implementation's frames"""
+    lean = make_batch_pred("C09")(cases, impl, ctx)
+    out = []
+    for c, im, lv in zip(cases, impl, lean):
+        if im is None:
+            out.append(None)
+            continue
+        pv = pred_c09(c, im, None, ctx)
+        out.append(False if (pv is False or lv is False) else pv)
+    return out
